@@ -5,7 +5,7 @@ import random
 from lib import common, cstage, tsgen, tsref, irs, gen
 from lib.vals import *
 
-THEOREMS = ["C01_literal_set_dispatch_is_union", "C01_discriminator_dispatch_is_union", "C01_printed_validator_means_the_IR",
+THEOREMS = ["C01_literal_set_dispatch_is_union", "C01_discriminator_dispatch_is_union", "C01_printed_validator_means_the_IR", "C01_refuted_for_short_tuples", "C01_literal_union_validator_means_the_union", "C01_literal_union_nonvacuous",
             "C01_nonvacuous"]
 IMPORTS = "From Beff Require Import Model.Cases."
 
